@@ -369,7 +369,12 @@ def check_run(ctx, d, cfg, cap, fault, num_iter, label):
         ctx.fail(f"{sig0}:aux(mass_diff)", f"info['mass_diff'] differs from what was solved for ({label})", rp)
     k = int(w.constrained_cell_flat_index)
     pk = float(abs(p[k])) if nc else 0.0
-    if not pk <= 1e-10 * max(float(np.abs(p).max()) if nc else 0.0, 1e-300) + 1e-300:
+    finite_p = p[np.isfinite(p)]
+    if finite_p.size != p.size:
+        # non-finite pressures in other cells (CG breakdown on extreme mobility weights) are recorded, not judged: the
+        # property speaks about the flux, the distance and the pinned value
+        ctx.cov["runs_with_nonfinite_pressure"] = ctx.cov.get("runs_with_nonfinite_pressure", 0) + 1
+    if not pk <= 1e-10 * max(float(np.abs(finite_p).max()) if finite_p.size else 0.0, 1e-300) + 1e-300:
         ctx.fail(f"{sig0}:pressure-not-pinned", f"pressure of the reference cell is {p[k]!r}, not 0 ({label})", rp)
     # (4) honest status
     met_last = n_done > 0 and ev[n_done - 1] == "ok1" and n_done - 1 > 1
@@ -382,7 +387,12 @@ def check_run(ctx, d, cfg, cap, fault, num_iter, label):
 
 def same_iterate(a, b, cfg):
     tol = 1e-5 if cfg.solver in ("amg", "cg") else 1e-9
-    return a.shape == b.shape and bool(np.all(np.abs(a - b) <= tol * max(float(np.abs(b).max()), 1e-300) + 1e-300))
+    if a.shape != b.shape or not np.array_equal(np.isfinite(a), np.isfinite(b)):
+        return False
+    m = np.isfinite(b)  # non-finite entries (pressure after a CG breakdown) must sit at the same places
+    if not m.any():
+        return True
+    return bool(np.all(np.abs(a[m] - b[m]) <= tol * max(float(np.abs(b[m]).max()), 1e-300) + 1e-300))
 
 
 def explore(ctx, d, cfg, lines, impl):
@@ -461,7 +471,9 @@ def configs(ctx):
             method=method, l1=l1s[(i // 2) % 3], mobility=mobs[i % 5], formulation=pairs[(i * 2 + i // 5) % 5][0], solver=pairs[(i * 2 + i // 5) % 5][1],
             aa=[0, 2][(i // 2) % 2], weighted=bool((i // 4) % 2), mseed=rng.randint(0, 10 ** 6),
             num_iter=[5, 4, 6, 3][i % 4], tol=[1e-14, float(np.finfo(float).max), 1e-3][(i // 3) % 3],
-            L=(1e-2 if method == "newton" else 1.0),
+            # Newton: L is a cut-off of the mobility; Bregman: fixed penalty parameter (the Bregman operator is scaled by 1/L,
+            # the initial Darcy operator by L_init = 1, so L != 1 distinguishes the two)
+            L=(1e-2 if method == "newton" else [1.0, 0.1, 2.0, 10.0, 0.5][(i // 3 + i) % 5]),
         )
         k = cfg.num_iter
         cfg["fault_at"] = sorted({0, 1, rng.randint(2, k - 1) if k > 2 else 1}) if not ctx.big else list(range(0, min(k, 6)))
